@@ -2166,3 +2166,106 @@ Section EndToEndTime.
     destruct na as [st|]; simpl in *; apply time_cell_some; assumption.
   Qed.
 End EndToEndTime.
+
+(* ===================================================================== SHAPE
+   forward returns a tensor of shape [batch, columns, out_channels], for every batch size
+   (the empty batch included). *)
+Section Shape.
+  Variable S : Scalar.
+  Notation R := (car S).
+  Notation XR := (X (car S)).
+
+  Lemma vecmat_length : forall ch vec (w : mat R), length (vecmat S ch vec w) = ch.
+  Proof. intros. unfold vecmat. rewrite map_length, seq_length. reflexivity. Qed.
+
+  Lemma contract_kl_length : forall ch x (w : list (mat R)), length (contract_kl S ch x w) = ch.
+  Proof. intros. unfold contract_kl. rewrite map_length, seq_length. reflexivity. Qed.
+
+  Lemma nth_wide : forall ch (w : mat R) j, Forall (fun r => length r = ch) w -> j < length w -> length (nth j w []) = ch.
+  Proof. intros ch w j H Hj. rewrite Forall_forall in H. apply H. apply nth_In. assumption. Qed.
+
+  Lemma lookup_length : forall ch (t : mat R) i row,
+      Forall (fun r => length r = ch) t -> embedding_lookup S t i = Some row -> length row = ch.
+  Proof.
+    intros ch t i row H E. unfold embedding_lookup in E. destruct (i <? 0)%Z; [discriminate|].
+    destruct (nth_error t (Z.to_nat i)) as [r|] eqn:En; [|discriminate]. simpl in E. inversion E; subst.
+    unfold fins. rewrite map_length. rewrite Forall_forall in H. apply H. eapply nth_error_In; eauto.
+  Qed.
+
+  Lemma fold_zip_length : forall ch (g : XR -> XR -> XR) rest r0,
+      length r0 = ch -> Forall (fun r => length r = ch) rest ->
+      length (fold_left (zipWith g) rest r0) = ch.
+  Proof.
+    intros ch g. induction rest as [|r rest IH]; intros r0 H0 HF; simpl; [assumption|].
+    inversion HF; subst. apply IH; [|assumption]. rewrite zipWith_length. lia.
+  Qed.
+
+  Lemma bag_length : forall mode ch (t : mat R) bag row,
+      Forall (fun r => length r = ch) t -> embedding_bag S mode ch t bag = Some row -> length row = ch.
+  Proof.
+    intros mode ch t bag row H E. unfold embedding_bag in E.
+    destruct (mapM (embedding_lookup S t) (filter (fun i => negb (i =? 0)%Z) bag)) as [rows|] eqn:M; [|discriminate].
+    simpl in E.
+    assert (HF : Forall (fun r => length r = ch) rows).
+    { apply Forall_forall. intros r Hin. apply In_nth_error in Hin. destruct Hin as [k Hk].
+      destruct (mapM_nth_inv _ _ _ _ _ M Hk) as [i [_ Hi]]. eapply lookup_length; eauto. }
+    destruct rows as [|r0 rest].
+    - inversion E; subst. apply repeat_length.
+    - inversion HF; subst.
+      destruct mode; inversion E; subst; unfold vadd, vmax; rewrite ?map_length; apply fold_zip_length; assumption.
+  Qed.
+
+  Lemma enc_cell_length : forall (c : config S) j v o,
+      wf_config S c -> channels_ok S c -> j < ncols S c ->
+      enc_cell S (cf_enc S c) (cf_stats S c) (cf_channels S c) j v = Some o -> length o = cf_channels S c.
+  Proof.
+    intros [e st ch na cpost] j v o Hwf Hch Hj E. unfold wf_config, channels_ok, ncols in *. simpl in *.
+    destruct e; destruct v; simpl in E; try discriminate.
+    - destruct Hwf as [Hw Hb]. destruct Hch as [Cw Cb]. inversion E; subst.
+      rewrite zipWith_length, map_length. unfold fins. rewrite map_length.
+      rewrite (nth_wide ch w j Cw) by lia. rewrite (nth_wide ch b j Cb) by lia. lia.
+    - inversion E; subst. apply repeat_length.
+    - destruct Hwf as [H1 [H2 [H3 H4]]]. destruct Hch as [C1 [C2 [C3 C4]]]. inversion E; subst.
+      unfold affine_cell. rewrite !zipWith_length.
+      rewrite (nth_wide ch w1 j C1), (nth_wide ch b1 j C2), (nth_wide ch w2 j C3), (nth_wide ch b2 j C4) by lia. lia.
+    - inversion E; subst. apply vecmat_length.
+    - destruct Hwf as [_ Hb]. inversion E; subst.
+      rewrite zipWith_length, vecmat_length. unfold fins. rewrite map_length, (nth_wide ch b j Hch) by lia. lia.
+    - eapply lookup_length; eauto.
+    - eapply bag_length; [|exact E]. rewrite Forall_forall in Hch. apply Hch. apply nth_In. lia.
+    - destruct Hwf as [_ Hb]. inversion E; subst.
+      rewrite zipWith_length, vecmat_length. unfold fins. rewrite map_length, (nth_wide ch b j Hch) by lia. lia.
+    - destruct Hwf as [_ Hb]. unfold time_cell in E. destruct l as [|y rest]; [discriminate|].
+      destruct (_ && _); [|discriminate]. inversion E; subst.
+      rewrite zipWith_length, contract_kl_length. unfold fins. rewrite map_length, (nth_wide ch b j Hch) by lia. lia.
+  Qed.
+
+  Lemma cells_length : forall stats (x : input S), length (cells S stats x) = input_rows S x.
+  Proof. intros stats x. destruct x; simpl; unfold emb_cells; rewrite ?map_length; reflexivity. Qed.
+
+  Theorem forward_with_shape : forall post (c : config S) (x : input S) o,
+      wf_config S c -> input_ok S c x -> channels_ok S c ->
+      (forall v, length (post v) = length v) ->
+      forward_with S post c x = Some o ->
+      shape_is (input_rows S x) (ncols S c) (cf_channels S c) o.
+  Proof.
+    intros post c x o Hwf Hin Hch Hpost Hf.
+    rewrite forward_with_cellwise in Hf by assumption.
+    destruct (construct_ok S c); [|discriminate].
+    destruct (cw_shape _ _ _ _ Hf) as [Hlen [Rm Ro]].
+    split; [rewrite Hlen; apply cells_length|].
+    apply Forall_forall. intros row Hrow.
+    split; [apply (proj1 (rect_forall _ o) Ro); assumption|].
+    apply Forall_forall. intros v Hv.
+    apply In_nth_error in Hrow. destruct Hrow as [r Hr]. apply In_nth_error in Hv. destruct Hv as [j Hj].
+    assert (Hg : get2 o r j = Some v) by (unfold get2; rewrite Hr; assumption).
+    assert (Hjn : j < ncols S c).
+    { rewrite <- (proj1 (rect_forall _ o) Ro row (nth_error_In _ _ Hr)). apply nth_error_Some. congruence. }
+    destruct (cw_get2_inv _ _ _ _ _ _ _ Hf Hg) as [cv [_ Hc]].
+    unfold cell_fn in Hc.
+    destruct (enc_cell S (cf_enc S c) (cf_stats S c) (cf_channels S c) j
+                       (na_cell S (cf_na S c) (nth j (cf_stats S c) (dstats S)) cv)) as [o'|] eqn:E; [|discriminate].
+    simpl in Hc. inversion Hc; subst v. rewrite Hpost, map_length.
+    eapply enc_cell_length; eauto.
+  Qed.
+End Shape.
